@@ -7,8 +7,19 @@ pub const GARBAGE: u64 = 0xdead_0000_0000;
 pub const MISSING_INPUT: u64 = 0xbad0_0000_0000;
 pub const PART_SUFFIX: [&str; 3] = ["", "x", "y"];
 
+/// Output names. The name of an odd slot extends the name of the slot before it (`j0`, `j0b`,
+/// `j2`, `j2b`, ...): one job's name being a substring of another's must not confuse anything.
 pub fn part_name(slot: usize, p: u8) -> String {
-    format!("j{}{}", slot, PART_SUFFIX[p as usize])
+    if slot % 2 == 1 {
+        format!("j{}b{}", slot - 1, PART_SUFFIX[p as usize])
+    } else {
+        format!("j{}{}", slot, PART_SUFFIX[p as usize])
+    }
+}
+
+/// `hash@stamp|hash@stamp` -> `hash|hash`
+fn strip_stamps(r: &str) -> String {
+    r.split('|').map(|f| f.split('@').next().unwrap()).collect::<Vec<_>>().join("|")
 }
 
 pub fn parts_of(mask: u8) -> impl Iterator<Item = u8> {
@@ -267,7 +278,13 @@ impl World {
         names
             .iter()
             .map(|n| {
-                if self.cfg.stamps {
+                if self.cfg.anon {
+                    if self.cfg.stamps {
+                        format!("{:x}@{}", contents[n], self.evalno)
+                    } else {
+                        format!("{:x}", contents[n])
+                    }
+                } else if self.cfg.stamps {
                     format!("{}={:x}@{}", n, contents[n], self.evalno)
                 } else {
                     format!("{}={:x}", n, contents[n])
@@ -286,6 +303,10 @@ impl World {
     pub fn altered(&self, u: &str, d: &str, last: &str, cur: &str) -> bool {
         if last == cur {
             return false;
+        }
+        if self.cfg.anon {
+            // whole record, outputs not named
+            return if self.cfg.stamps { strip_stamps(last) != strip_stamps(cur) } else { true };
         }
         let l = parse_record(last);
         let c = parse_record(cur);
